@@ -1,6 +1,7 @@
 (* Extract_term.v -- extraction of the terminal emulator (TermEmu.v) and of the executable draw
-   model (DrawDefs.v) to OCaml (ExtrOcamlBasic only). *)
+   model (DrawDefs.v, DrawPutDefs.v) to OCaml (ExtrOcamlBasic only). *)
 From Coq Require Import List NArith ZArith Extraction ExtrOcamlBasic.
-From NV Require Import Bytes TermEmu DrawDefs.
+From NV Require Import Bytes TermEmu DrawDefs DrawPutDefs.
 Definition all_types : nat * N * Z := (0%nat, 0%N, 0%Z).
-Extraction "term_model.ml" all_types term_new feed run interp cp_wid wfix fix_left term_col drawupdate drawfix win.
+Extraction "term_model.ml" all_types term_new feed run interp cp_wid wfix fix_left term_col drawupdate drawfix win
+  vi_linecount count_nl text_lines vc_put_chars vc_put_lines put_screen.
